@@ -250,6 +250,18 @@ def replay(mod, ctx: Ctx, path: str) -> int:
             return 1
         print("implementation and model agree on this case")
         return 0
+    if hasattr(mod, "replay_case"):
+        # findings that do not come from a correspondence batch (failing-input search, oracle samples,
+        # metamorphic pairs): the module re-judges the stored input on the implementation alone
+        holds, detail, r = mod.replay_case(payload)
+        print("case:", json.dumps(payload["case"]))
+        print("implementation:", json.dumps(r, default=str)[:4000])
+        print("oracle:", holds, detail)
+        if holds is False:
+            print(f"VIOLATION property={ctx.prop} replay={path}")
+            return 1
+        print("the property holds on this input")
+        return 0
     print("unknown batch", bname)
     return 2
 
